@@ -2,7 +2,7 @@
 """Regression over every stored seeded change: apply seeded/<name>/patch.diff to the repository the harness builds
 from, run the quick tier of the property the change targets, expect exit 1, undo the patch.
 
-usage: tools/regress_seeded.py [name-filter ...]
+usage: tools/regress_seeded.py [--shard=i/n] [name-filter ...]   (shard: every n-th directory starting at the i-th)
 Meant for `vp run --with-repo -- python3 tools/regress_seeded.py`: it then works on the snapshot of /repo
 ($VP_RUN_REPO) and on the snapshot of /verif, so the live trees stay free. Prints one line per change and a summary;
 exit 0 iff every change is caught. Writes nothing under seeded/.
@@ -18,7 +18,9 @@ if os.environ.get("VP_RUN_REPO") and here != "/verif":
         os.unlink(link)
     os.symlink(repo, link)
     print("using repo snapshot", repo, flush=True)
-filters = sys.argv[1:]
+filters = [a for a in sys.argv[1:] if not a.startswith("--shard=")]
+shard = next((a[len("--shard="):] for a in sys.argv[1:] if a.startswith("--shard=")), "0/1")
+shard_i, shard_n = (int(v) for v in shard.split("/"))
 
 
 def sh(cmd, timeout=3600):
@@ -34,6 +36,7 @@ if st:
     print("refusing: repository is dirty:", st)
     sys.exit(2)
 names = sorted(os.listdir(os.path.join(here, "seeded")))
+names = [n for k, n in enumerate(names) if k % shard_n == shard_i]
 missed, broken = [], []
 for name in names:
     d = os.path.join(here, "seeded", name)
